@@ -418,6 +418,7 @@ func init() {
 		register(&scenario{Name: fmt.Sprintf("c13/model-script-%02d", i), Props: []string{"C13"}, Quick: i < 6, Run: func(t *T) {
 			rg := &rng{s: t.Seed*6151 + uint64(i)*92821 + 5}
 			cmds := []int{1, 2, 3, 4, 5, 6, 50, 51, 200, 255}
+			wide := []int{256 + 50, 65536 + 51, 256 + 4, 1<<24 + 200} // subscriptions above 255: never reached by frames of command (cmd & 0xff)
 			p := newPeer(t, t.Transport, t.Version)
 			defer p.Shutdown()
 			var mu sync.Mutex
@@ -446,6 +447,16 @@ func init() {
 					hs = append(hs, fmt.Sprint(h))
 				}
 				subsS = append(subsS, fmt.Sprintf("%d:%s", c, strings.Join(hs, ",")))
+			}
+			for _, c := range wide {
+				h := nextH
+				nextH++
+				handlers[uint32(c)] = append(handlers[uint32(c)], func(pk *protocol.Packet) {
+					mu.Lock()
+					log = append(log, fmt.Sprintf("%d.%s", h, pk.Body))
+					mu.Unlock()
+				})
+				subsS = append(subsS, fmt.Sprintf("%d:%d", c, h))
 			}
 			n := 40 + rg.intn(60)
 			var framesS []string
@@ -868,7 +879,7 @@ func init() {
 		defer p.Shutdown()
 		var mu sync.Mutex
 		var got []string
-		sizes := []int{10, 65536, 1<<20 - 1, 1 << 20, 7, 3 << 20, 1<<20 + 1, 12}
+		sizes := []int{10, 65536, 1<<20 - 1, 1 << 20, 7, 3 << 20, 1<<20 + 1, 12, 1<<24 - 1, 5}
 		var want []string
 		var frames [][]byte
 		for i, n := range sizes {
@@ -877,7 +888,16 @@ func init() {
 				body[k] = byte(k*7 + i*13 + k>>8)
 			}
 			want = append(want, fmt.Sprintf("%d:%x", n, fnv64(body)))
-			frames = append(frames, specEncode(p.version, pushFrame(50, body)))
+			f := pushFrame(50, body)
+			if n == 1<<24-1 {
+				// the largest legal frame: maximal body, signed, and (v2) a metadata block of the maximal size
+				f.verify, f.nonce, f.sig = 1, 0x0102030405060708, []byte("0123456789abcdef")
+				if p.version == 2 {
+					v := strings.Repeat("m", 32767)
+					f.md = append(append(encStr([]byte("a")), encStr([]byte(v))...), append(encStr([]byte("b")), encStr([]byte(v[:32761]))...)...)
+				}
+			}
+			frames = append(frames, specEncode(p.version, f))
 		}
 		p.onFrame = func(pc *peerConn, f frameIn) {
 			if stdReply(pc, f) {
@@ -885,6 +905,13 @@ func init() {
 			}
 			if f.Typ == 1 && f.Cmd == 100 {
 				for _, fr := range frames {
+					if len(fr) > 1<<24 && pc.ws == nil {
+						// the largest frame arrives in two segments, the second being its last 5 bytes
+						pc.SendRaw(fr[:len(fr)-5])
+						time.Sleep(t.U(2))
+						pc.SendRaw(fr[len(fr)-5:])
+						continue
+					}
 					pc.SendRaw(fr)
 				}
 				pc.Send(respFrame(f, 0, f.Body))
